@@ -2029,6 +2029,27 @@ func (q *seq) scripted(kind int) {
 		}
 		q.do(func() (string, string) { return q.opPCancel(2, 1) })
 		q.do(func() (string, string) { return q.opPCancel(3, 2) })
+	case 8: // the timeout period shrinks between two batches of one token: the LATER batch (higher nonce) has the EARLIER timeout; the
+		// external chain executes them in nonce order, the first one below the second one's timeout
+		q.do(func() (string, string) { return q.opParams(1000, 3000, 43200000, 3600001) })
+		q.do(func() (string, string) { return q.opObsOther(uint64(100 + q.rng.Intn(900))) })
+		tk := q.rng.Intn(nTokens)
+		send(0, tk, 100, 2)
+		send(1, tk, 100, 3)
+		q.do(func() (string, string) { return q.opReqBatch(tk, 1, 0, d[1]) })
+		q.do(func() (string, string) { return q.opBlock(1) })
+		q.do(func() (string, string) { return q.opParams(1000, 3000, 60000, 3600001) })
+		send(2, tk, 100, 5)
+		send(3, tk, 100, 6)
+		q.do(func() (string, string) { return q.opReqBatch(tk, 1, 0, d[1]) })
+		if sn := q.snapshot(); len(sn.batches) == 2 && sn.batches[1].timeout < sn.batches[0].timeout {
+			q.out.Count("scn:later-batch-of-the-token-has-the-earlier-timeout")
+			b1, b2 := sn.batches[0], sn.batches[1]
+			h := max(q.extMaxH, 1)
+			q.do(func() (string, string) { return q.opObsBatch(h, b1.token, uint64(b1.nonce)) })
+			ah := q.admissibleHeight(b2.timeout)
+			q.do(func() (string, string) { return q.opObsBatch(ah, b2.token, uint64(b2.nonce)) })
+		}
 	case 7: // genesis export / import in the middle of a history (only with C05_GENESIS=1)
 		q.do(func() (string, string) { return q.opObsOther(uint64(300 + q.rng.Intn(300))) })
 		send(0, 0, 100, 2)
@@ -2296,10 +2317,10 @@ func TestC05(t *testing.T) {
 		e := envs[i%len(envs)]
 		script := -1
 		switch {
-		case i < 21:
-			script = i % 7
+		case i < 24:
+			script = []int{0, 1, 2, 3, 4, 5, 6, 8}[i%8]
 		case i%9 == 0:
-			script = 1 + rng.Intn(6)
+			script = []int{1, 2, 3, 4, 5, 6, 8}[rng.Intn(7)]
 		}
 		out.Count("chain:" + e.chain)
 		runSeq(e, out, rng, i, nOps, script)
